@@ -129,12 +129,78 @@ fn build(c: &mut Choices, placement: usize, style: usize, text: usize, opt_pragm
     case
 }
 
+/// An `@jsx <name>` comment in front of a statement that is *not* top-level (inside a TS
+/// namespace / module / `declare global` block, a block statement, a function, a class static
+/// block) is an ordinary comment. Metamorphic oracle, no evaluation: the output must equal the
+/// output of the same module with the annotation spelled `@jsx-off`.
+fn nested_annotation_case(c: &mut Choices) -> Case {
+    let texts: Vec<&str> = TEXTS.iter().filter(|(_, e)| e.is_some()).map(|(t, _)| *t).collect();
+    let text = texts[c.pick(texts.len())];
+    let style = STYLES[c.pick(STYLES.len())];
+    let container = c.pick(6);
+    let opt_pragma = c.chance(1, 3);
+    let comment = render_comment(style, text);
+    let inner = "export const inner = <p class=\"i\">{x}</p>;";
+    let (open, close, lang) = match container {
+        0 => ("namespace W {", "}", "tsx"),
+        1 => ("module M {", "}", "tsx"),
+        2 => ("declare global {", "}", "tsx"),
+        3 => ("{", "}", "jsx"),
+        4 => ("export function fnn() {", "}", "jsx"),
+        _ => ("class K { static {", "} }", "jsx"),
+    };
+    let inner = if container >= 3 { inner.replace("export const", "const") } else { inner.to_string() };
+    let src = format!(
+        "import {{ x, C1 }} from \"env\";\nexport const before = <div class=\"a\">b</div>;\n{open}\n  {comment}\n  {inner}\n{close}\nexport const after = <><C1>{{x}}</C1></>;\n"
+    );
+    let mut opts = Opts::default();
+    if opt_pragma {
+        opts.pragma = Some("opt".into());
+    }
+    let mut case = Case::new(src, lang, Some(opts.json()));
+    case.extra = json!({"kind": "nested-annotation", "text": text});
+    case.label("placement=nested-not-top-level");
+    case.label(format!("container={}", ["namespace", "module", "declare-global", "block", "function", "class-static-block"][container]));
+    case.label(format!("option-pragma={opt_pragma}"));
+    case.nontrivial = true;
+    case
+}
+
+fn check_nested_annotation(case: &Case) -> Verdict {
+    use crate::driver::{with_transform, Lang};
+    let lang = Lang::from_str(&case.lang);
+    let run = |src: &str| -> Result<(String, Vec<String>), String> {
+        with_transform(src, lang, case.options.as_deref(), |t| {
+            let raw = t.raw.as_ref().ok_or_else(|| format!("panicked: {:?}", t.panicked))?;
+            Ok((t.print_final_nocomments(raw)?, t.diags.clone()))
+        })
+        .map_err(|e| format!("rejected: {e:?}"))?
+    };
+    let neutral = case.source.replace("@jsx", "@jsx-off");
+    let (a, b) = match (run(&case.source), run(&neutral)) {
+        (Ok(a), Ok(b)) => (a, b),
+        (Err(e), _) | (_, Err(e)) => {
+            if e.starts_with("rejected") {
+                return Verdict::Discard(format!("parser-{e}"));
+            }
+            return Verdict::Violation { kind: "transform-failed".into(), detail: json!({"error": e}) };
+        }
+    };
+    if a != b {
+        return Verdict::Violation {
+            kind: "nested-annotation-has-an-effect".into(),
+            detail: json!({"with_annotation": a.0, "with_neutral_comment": b.0, "diags": [a.1, b.1]}),
+        };
+    }
+    Verdict::Pass
+}
+
 impl Property for C15 {
     fn id(&self) -> &'static str {
         "C15"
     }
     fn rule(&self) -> String {
-        "exhaustive comment matrix {placement: file head, before the 1st / 2nd top-level statement, inside a function body, none} x {style: /* */, /** */, //, multi-line JSDoc} x {text: '@jsx h', extra spaces, tab, trailing words, '@jsx' without name, @jsxImportSource, @jsxRuntime, @jsxFrag, 'jsx h', prose with '@jsx,'} x pragma option absent / 'opt', on a fixed body, plus the same matrix on random bodies (elements, component hosts, fragments at module level and inside a function) under random other options; at most one effective annotation per module. Oracle: reference lowering whose factory is the expected one (head/top-level '@jsx <name>' > option > createVNode); the canoniser reports which recording stub created every vnode (h / opt / F / createVNode); additionally createVNode must not be imported when nothing uses it. non-trivial = module with a comment (>=3 vnode calls each); distinct by hash(source, options, env)".into()
+        "exhaustive comment matrix {placement: file head, before the 1st / 2nd top-level statement, inside a function body, none} x {style: /* */, /** */, //, multi-line JSDoc} x {text: '@jsx h', extra spaces, tab, trailing words, '@jsx' without name, @jsxImportSource, @jsxRuntime, @jsxFrag, 'jsx h', prose with '@jsx,'} x pragma option absent / 'opt', on a fixed body, plus the same matrix on random bodies (elements, component hosts, fragments at module level and inside a function) under random other options; at most one effective annotation per module; plus annotations in front of statements that are not top-level (TS namespace / module / declare global blocks, block statement, function body, class static block): metamorphic, the output equals that of the same module with the annotation neutralised. Oracle: reference lowering whose factory is the expected one (head/top-level '@jsx <name>' > option > createVNode); the canoniser reports which recording stub created every vnode (h / opt / F / createVNode); additionally createVNode must not be imported when nothing uses it. non-trivial = module with a comment (>=3 vnode calls each); distinct by hash(source, options, env)".into()
     }
     fn assumptions(&self) -> Vec<String> {
         vec![
@@ -175,6 +241,9 @@ impl Property for C15 {
         vec![("comment matrix: placement x style x text x option x 4 fixed bodies".into(), cases)]
     }
     fn generate(&self, c: &mut Choices) -> Case {
+        if c.chance(1, 10) {
+            return nested_annotation_case(c);
+        }
         let p = c.pick(PLACEMENTS.len());
         let s = c.pick(STYLES.len());
         let t = c.pick(TEXTS.len());
@@ -182,6 +251,9 @@ impl Property for C15 {
         build(c, p, s, t, o, false)
     }
     fn check(&self, case: &Case, ctx: &mut Ctx) -> Verdict {
+        if case.extra["kind"] == "nested-annotation" {
+            return check_nested_annotation(case);
+        }
         let t = match transform_for_eval(case) {
             Ok(t) => t,
             Err(v) => return v,
